@@ -86,6 +86,10 @@ COMPOSITE_VARIANTS = dict(name='composite_width_variants', kind='agreement', tar
                      claim='every typed protocol item of the sample set (delivery states and outcomes, open / begin / flow / transfer / disposition / detach / end / close, header, properties, source, target, body sections; described-list bodies on both sides of the list8 / list32 boundary, trailing fields elided) decodes to the SAME value from every valid width of its outer list (list8 re-written as list32 and back, list0 as an empty list8 / list32), from a slice and from a stream, and the two values placed right behind it are found where they are (exactly the encoding is consumed)',
                      bound='about 160 sample values (message-id / correlation-id in every variant, addresses, symbols, custom and standard error conditions, contents on both sides of the 255-octet boundary) x up to 3 width variants x 2 readers (derive-macro output and the serde visitors are outside the Verus subset; DescribedAccess::consume_list_header / consume_map_header are under contract in unit READERS)')
 
+RT_VALUE_CLASSES = dict(name='rt_value_classes', kind='agreement', target='serde_amqp::{to_vec,from_slice}::<Value>', args=['C03.value-rt'],
+                 claim='from_slice(to_vec(v)) == v for untyped values: every leaf class (all primitive types, strings/symbols/binaries on both sides of the 255/256 width boundary, non-ASCII text), every compound wrapper of a leaf (array of 1/2/3/300, list, map as key and as value, described by code and by name) and every wrapper of those (nesting depth 2), outside the two input classes of findings D18 / D19',
+                 bound='3011 values: 37 leaves x 9 wrappers x 9 wrappers, fixed sample data per leaf class')
+
 ASYNC = 'async fn bodies are verified with .await erased (R3): sound for the state reached through the exclusive &mut self borrow, says nothing about interleavings through shared Arc state or cancellation'
 ENGINE = 'that the tokio engine tasks (select! loops, mpsc channels) call these functions once per frame in arrival order is not verified'
 
@@ -101,9 +105,7 @@ PROPS = {
             'that UnsettledMessage::settle_with_state is actually invoked on the entry removed by LinkRelay::on_incoming_disposition is visible in the extracted text but is not an obligation: a by-value call leaves no ghost trace; what IS proved: the entry removed is the one under the disposition\'s tag, and settle_with_state resolves its own channel with exactly the state given']),
     'C03': dict(
         probes=[COMPOSITE_VARIANTS,
-            dict(name='rt_value_classes', kind='agreement', target='serde_amqp::{to_vec,from_slice}::<Value>', args=['C03.value-rt'],
-                 claim='from_slice(to_vec(v)) == v for untyped values: every leaf class (all primitive types, strings/symbols/binaries on both sides of the 255/256 width boundary, non-ASCII text), every compound wrapper of a leaf (array of 1/2/3/300, list, map as key and as value, described by code and by name) and every wrapper of those (nesting depth 2), outside the two input classes of findings D18 / D19',
-                 bound='3011 values: 37 leaves x 9 wrappers x 9 wrappers, fixed sample data per leaf class'),
+            RT_VALUE_CLASSES,
             dict(name='rt_array_of_described', kind='agreement', target='serde_amqp::{to_vec,from_slice}::<Value>', args=['C03.array-of-described'],
                  claim='the same round trip for the values in which an array of described values occurs', bound='296 values (as above, restricted to that class)'),
             dict(name='rt_array_of_zero_width', kind='agreement', target='serde_amqp::{to_vec,from_slice}::<Value>', args=['C03.array-of-zero-width'],
@@ -122,7 +124,7 @@ PROPS = {
                 dict(name='spec_defaults_of_elided_fields', kind='agreement', target='serde_amqp::from_slice~fe2o3_amqp_types-composites', args=['C05.spec-defaults'],
                      claim='a composite whose defaulted fields are elided (list0, short list) or sent as null decodes to the defaults of the SPECIFICATION, written out in the probe (header: durable false, priority 4, first-acquirer false, delivery-count 0; open: max-frame-size 4294967295, channel-max 65535; begin: handle-max 4294967295; attach: snd-settle-mode mixed, rcv-settle-mode first, incomplete-unsettled false; flow: drain / echo false; transfer: more / aborted / batchable / resume false; disposition: settled / batchable false; detach: closed false; source / target: durable none, expiry-policy session-end, timeout 0, dynamic false)',
                      bound='12 reference encodings written by hand from the specification, 36 field checks (derive-macro output is outside the Verus subset)')],
-        units=['SERHDR', 'SERSTR', 'SERFIX', 'READERS', 'VALUESER'], kani=K_RT + K_DEC, level='proof', title='Valid encodings / every variant accepted (fixed- and variable-width primitives, compound headers)',
+        units=['SERHDR', 'SERSTR', 'SERFIX', 'READERS', 'VALUESER', 'MESSAGE', 'SEQACCESS'], kani=K_RT + K_DEC, level='proof', title='Valid encodings / every variant accepted (fixed- and variable-width primitives, compound headers)',
         lemmas={'READERS': ['lemma_var_round_trip', 'lemma_be32_inverse', 'lemma_be64_inverse', 'lemma_fixed_round_trip_u64', 'lemma_fixed_round_trip_u32', 'lemma_fixed_round_trip_u8', 'lemma_fixed_round_trip_i32', 'lemma_fixed_round_trip_i64']},
         assumptions=[VARW,
             'PROVED for every value: the fixed-width primitives listed in the obligations (Kani harnesses, loop-free / fully unwound over the full domain) and the compound header writers (Verus)',
@@ -130,7 +132,7 @@ PROPS = {
             'NOT DECIDED: arbitrary nesting of lists/maps/arrays/described values (the element loop of the serde visitor chain), the derive-macro output for the typed protocol items (performatives, SASL bodies, delivery states, messages) -- serde visitor code is outside the Verus subset and too large for CBMC beyond small bounds',
             'compound header writers: the call-site fact count <= byte length (every element occupies at least one byte in this implementation) is assumed; the serde SerializeSeq/Map impls that call them are not under contract']),
     'C20': dict(
-        probes=[COMPOSITE_VARIANTS, dict(name='size_of_described_composites', kind='agreement', target='serde_amqp::{serialized_size,to_vec} on fe2o3_amqp_types composites', args=['C20.size-composites'],
+        probes=[COMPOSITE_VARIANTS, RT_VALUE_CLASSES, dict(name='size_of_described_composites', kind='agreement', target='serde_amqp::{serialized_size,to_vec} on fe2o3_amqp_types composites', args=['C20.size-composites'],
                      claim='serialized_size(v) == to_vec(v).len() for derive(SerializeComposite) values: empty described lists (Accepted, Released, End, default Header / Properties), delivery states inside a Disposition, and described lists whose body crosses the list8 / list32 boundary (body sizes 220..=270 through Properties.user_id and Rejected.error.description), Data / AmqpValue around the vbin8 / str8 boundary',
                      bound='133 values, fixed sample data'),
                 dict(name='tree_vs_bytes_plain', kind='agreement', target='serde_amqp::{to_value,from_value}~{to_vec,from_slice}', args=['C20.value-tree-plain'],
@@ -183,7 +185,7 @@ PROPS = {
             'a NON-transfer performative whose encoding exceeds the frame is refused with FramingError since fix 542518b ([C06.transport.non-transfer-whole]); nothing establishes that the engines handle that error gracefully (the connection engine treats it as a transport error)',
             'decoding under arbitrary read fragmentation is tokio_util LengthDelimitedCodec + FramedRead (third party), not verified']),
     'C01': dict(
-        units=['FRAMEENC', 'SESSION', 'SENDSPLIT', 'LINK', 'REASM', 'SESSENG', 'CONNENG', 'RESUME', 'BYTEREADER', 'WIRING', 'ACCLINK', 'LINKAPI'],
+        units=['FRAMEENC', 'SESSION', 'SENDSPLIT', 'LINK', 'REASM', 'SESSENG', 'CONNENG', 'RESUME', 'BYTEREADER', 'WIRING', 'ACCLINK', 'LINKAPI', 'READERS'],
         lemmas={'SENDSPLIT': ['lemma_link_expected', 'lemma_link_mids'], 'FRAMEENC': ['lemma_expected_properties', 'lemma_mids_payload']}, kani=[], level='proof', title='End-to-end delivery (sequential stages only)',
         assumptions=[ASYNC, ENGINE,
             'only the sequential stages are under contract: session hold-back/stamping (SESSION) and frame splitting (FRAMEENC); link-level split, reassembly and the codec round trip are separate units where built',
@@ -203,6 +205,7 @@ PROPS = {
             'parking_lot::RwLock and Arc<AtomicU32> erased: disposal concurrent with recv from another task is not modelled',
             'the overrun error being turned into a detach frame by the link/engine is not verified']),
     'C12': dict(
+        probes=[COMPOSITE_VARIANTS],
         units=['CONN', 'CONNENG', 'HEADERS', 'HDRCODEC', 'HANDLES'],
         lemmas={'CONNENG': ['lemma_extc_trans']}, kani=[], level='proof', title='Connection lifecycle',
         assumptions=[ASYNC,
